@@ -175,16 +175,18 @@ def sym_concatenate_func(vc):
         paths = vc.explore(fk, thunk, min_paths=4)
         expect_no_raise_or_same(vc, fk, paths)
     # stream phase
-    for kind in ('list', 'str'):
-        for mode in ('selected', 'unselected'):
-            def thunk2(it, kind=kind, mode=mode):
+    for kind, mode, aliases in [(k, m, True) for k in ('list', 'str') for m in ('selected', 'unselected')] + [('list', 'selected', False)]:
+        for _once in (0,):
+            def thunk2(it, kind=kind, mode=mode, aliases=aliases):
                 maker = real_function(it, 'dataflows.processors.concatenate', 'concatenate')
                 sel, want = selector(it, kind)
-                fields = PyDict({'t1': PyList(['s1']), 't2': PyList([])})
+                # with and without source aliases: rows of a selected run ALWAYS go through the mapping onto the target fields
+                # (projection and nulls for absent fields are needed even when nothing is renamed and the run has one resource)
+                fields = PyDict({'t1': PyList(['s1']), 't2': PyList([])}) if aliases else PyDict({'t1': PyList([]), 't2': PyList([])})
                 func = it.call(maker, [fields], dict(target=PyDict({'name': 'target', 'path': 'target.csv'}), resources=sel))
                 package = mk_package2(it)
                 it.path.info['allowed_exc'] = {'AssertionError': z3.BoolVal(True)}
-                tag = '[%s,%s]' % (kind, mode)
+                tag = '[%s,%s%s]' % (kind, mode, '' if aliases else ',no-aliases')
 
                 def at_start(it, env, r):
                     m = want(package, r.attrs['res'].attrs['name'].t)
@@ -214,7 +216,7 @@ def sym_concatenate_func(vc):
                             check(it, 'uses-the-mapping-built-in-the-package-phase' + tag, fm is env.lookup('field_mapping'))
                             # for fields = {'t1': ['s1'], 't2': []}: aliases map to their target, every target maps to itself
                             check(it, 'mapping-sends-aliases-and-targets-to-the-target' + tag,
-                                  isinstance(fm, PyDict) and fm.d == {'s1': 't1', 't1': 't1', 't2': 't2'})
+                                  isinstance(fm, PyDict) and fm.d == ({'s1': 't1', 't1': 't1', 't2': 't2'} if aliases else {'t1': 't1', 't2': 't2'}))
                             check(it, 'all-target-fields-in-order' + tag, isinstance(y.args[1], PyList) and y.args[1].items == ['t1', 't2'])
                         check(it, 'selected-run-concatenated' + tag, ok)
                     cover(it, 'iter-reachable' + tag)
@@ -515,6 +517,29 @@ def nat_concatenate_in_place(h):
         h.check(ok, P + 'concatenate.py::concatenator', (tname, n, pos), want, got[:2] if got[0] != 'ok' else got[1][0][pos])
 
 
+def nat_concatenate_projection(h):
+    """a single selected resource and no renamed fields: the rows are still mapped onto the target fields (surplus source fields
+    dropped, absent target fields null) -- observed by a step placed right after concatenate, before any re-cast"""
+    from dataflows import Flow, concatenate
+    for nsrc in (1, 2):
+        seen = []
+
+        def observe(rows):
+            if rows.res.name == 'target':
+                for r in rows:
+                    seen.append(dict(r))
+                    yield r
+            else:
+                yield from rows
+        srcs = [[{'id': i, 'kind': 'k%d' % i, 'surplus': 's'} for i in range(3)], [{'id': 10, 'kind': 'z', 'surplus': 't'}]][:nsrc]
+        got = h.run(lambda: Flow(*[[dict(r) for r in s] for s in srcs],
+                                 concatenate({'id': [], 'kind': [], 'extra': []}, dict(name='target', path='target.csv')), observe).results())
+        want = [{'id': r['id'], 'kind': r['kind'], 'extra': None} for s in srcs for r in s]
+        fields = [f['name'] for f in got[1][1].descriptor['resources'][0]['schema']['fields']] if got[0] == 'ok' else None
+        h.check(got[0] == 'ok' and seen == want and fields == ['id', 'kind', 'extra'], P + 'concatenate.py::concatenate.func',
+                ('projection without renames', nsrc), want, (seen, fields) if got[0] == 'ok' else got[:2])
+
+
 def nat_duplicate_aliasing(h):
     """duplicate followed by an in-place row edit: the copy must still equal the original input rows (known finding)"""
     from dataflows import Flow, duplicate
@@ -535,5 +560,5 @@ ITEMS = [
     Item('duplicate.func', sym_duplicate_func, [], P + 'duplicate.py::duplicate.func'),
     Item('delete_resource.func', K10.sym_delete_resource, [], P + 'delete_resource.py::delete_resource.func'),
     Item('appenders', sym_appenders, [], 'dataflows/helpers/iterable_loader.py::iterable_loader.process_resources'),
-    Item('pipelines', None, [('conservation', nat_restructure), ('concatenate-in-place', nat_concatenate_in_place), ('duplicate-aliasing', nat_duplicate_aliasing)], None),
+    Item('pipelines', None, [('conservation', nat_restructure), ('concatenate-in-place', nat_concatenate_in_place), ('concatenate-projection', nat_concatenate_projection), ('duplicate-aliasing', nat_duplicate_aliasing)], None),
 ]
